@@ -5,6 +5,7 @@ import Larking.Expected.C02
 import Larking.Lemmas.Complete
 import Larking.Lemmas.LexerComplete
 import Larking.Lemmas.Routes
+import Larking.Lemmas.VarIndexComplete
 /-
   C02 — Routing completeness, literal-over-wildcard precedence, order independence.
 -/
@@ -212,6 +213,37 @@ theorem dispatch_survives_registrations (conv) (hconv : ∀ f t, conv f t = true
   have hwf := buildAll_WF Gen.tokenCap more t t' (buildAll_WF Gen.tokenCap rs .empty t (WF_empty 0) hb) hm
   exact way_dispatched conv hconv verb t' toks es hw 0 hwf
 
+/-- **`variable.index` finds every greedy instance of a sub-pattern** (`GMatch`: literals and
+'/' token for token, `*` the maximal run of non-separator tokens, `**` everything up to the
+verb): the capture it reports is exactly the instance. The converse is `capture_matches_pattern`
+(C01). -/
+theorem variable_index_complete (pat cap rest : List Tok) (h : GMatch pat cap rest) (i : Nat) :
+    varIndex pat (cap ++ rest) i = .ok (some (i + cap.length)) :=
+  varIndex_complete pat cap rest h i
+
+/-- `accepted_rules_are_routed` with the request described declaratively: `EdgeInst` reads the
+binding's edges as a pattern — a literal or verb edge is the next two request tokens spelled out,
+a variable edge covers a non-empty greedy instance of its sub-pattern — with no reference to
+`variable.index`. -/
+theorem accepted_rules_route_their_instances (conv) (hconv : ∀ f t, conv f t = true) (g : Bytes → List Tok)
+    (rs : List (Rule × Nat × (List Bytes → Option Nat))) (t : Node)
+    (hb : buildAll Gen.tokenCap rs .empty = .ok t)
+    (hg : ∀ e ∈ rs, ∀ b ∈ e.1.bindings, BindingG Gen.tokenCap g e.2.2 b)
+    (e) (he : e ∈ rs) (b : Binding) (hbm : b ∈ e.1.bindings) (es : List Edge)
+    (hes : bindingEdges Gen.tokenCap e.2.2 b = some es) (verb : Bytes) (toks : List Tok)
+    (hi : EdgeInst es toks) (hk : b.verb = starVerb ∨ verb = b.verb) :
+    ∃ m caps, search conv verb t toks = .found m caps :=
+  accepted_rules_are_routed conv hconv g rs t hb hg e he b hbm verb toks
+    ⟨es, hes, edgeInst_edgeMatch es toks hi, hk⟩
+
+/-- … and for a binding whose template is of the documented grammar, the edges are the grammar's
+own reading of the template (`Tmpl.edges`: `"/"+literal`, `":"+verb`, one variable edge per `*`,
+`**` or `{field=pattern}`). -/
+theorem grammar_binding_edges (resolve : List Bytes → Option Nat) (b : Binding) (t : Tmpl)
+    (ht : t.Wf) (hb : b.tmpl = t.render) (hcap : t.toks.length ≤ Gen.tokenCap) (hres : t.Resolves resolve) :
+    bindingEdges Gen.tokenCap resolve b = some t.edges :=
+  bindingEdges_of_grammar Gen.tokenCap resolve b t ht hb hcap hres
+
 -- non-vacuity: GET "/v/{a=s/*}" and the request tokens of "/v/s/x"
 private def pu (c : Nat) : Rune := ⟨[UInt8.ofNat c], c, false, false, false, false⟩
 private def le (c : Nat) : Rune := ⟨[UInt8.ofNat c], c, true, true, true, true⟩
@@ -228,6 +260,13 @@ example : Routed Gen.tokenCap (fun _ => some 0) bEx [71, 69, 84] reqEx :=
     .seg ⟨.slash, [47]⟩ ⟨.path, [118]⟩ _ _
       (.var _ ⟨.slash, [47]⟩ _ 4 [] rfl (by decide) (by decide) (.nil _ (by decide))),
     Or.inr rfl⟩
+example : EdgeInst esEx reqEx :=
+  .seg ⟨.slash, [47]⟩ ⟨.path, [118]⟩ _ _
+    (.var _ ⟨.slash, [47]⟩ [⟨.path, [115]⟩, ⟨.slash, [47]⟩, ⟨.path, [120]⟩, ⟨.eof, []⟩] [] [] rfl (by simp)
+      (.literal _ _ _ _ _ rfl rfl rfl
+        (.slash _ _ _ _ _ rfl rfl
+          (.star _ [] [⟨.path, [120]⟩, ⟨.eof, []⟩] [] [] rfl (by simp) (by decide) (by simp) (.nil []))))
+      (.nil [] (by simp)))
 example : BindingG Gen.tokenCap (fun _ => [⟨.literal, [115]⟩, ⟨.slash, [47]⟩, ⟨.star, [42]⟩]) (fun _ => some 0) bEx := by
   intro es he e hmem
   have h2 : bindingEdges Gen.tokenCap (fun _ => some 0) bEx = some esEx := by decide
@@ -248,3 +287,6 @@ end Larking.Props.C02
 #print axioms Larking.Props.C02.documented_paths_lex
 #print axioms Larking.Props.C02.accepted_rules_are_routed
 #print axioms Larking.Props.C02.dispatch_survives_registrations
+#print axioms Larking.Props.C02.variable_index_complete
+#print axioms Larking.Props.C02.accepted_rules_route_their_instances
+#print axioms Larking.Props.C02.grammar_binding_edges
